@@ -270,6 +270,13 @@ func runC05(c *mc.Ctx) {
 				raws = append(raws, c05Raw{Hex: mc.Hex(m), Why: "byte substitution, checksum not recomputed"})
 			}
 		}
+		for _, m := range checksumPatterns() { // checksum corruptions of weight <= 2 bits, byte values, cancelling pairs
+			mm := append([]byte{}, f...)
+			for i := 0; i < 4; i++ {
+				mm[78+i] ^= m[i]
+			}
+			raws = append(raws, c05Raw{Hex: mc.Hex(mm), Why: "checksum corrupted (pattern)"})
+		}
 		// (b) recomputed checksum
 		for bit := 0; bit < 78*8; bit++ {
 			m := append([]byte{}, f...)
